@@ -46,6 +46,14 @@ Definition raw_file_bytes (g : bytes) (ckh ckf t attr state : Z) (body : bytes) 
 Definition raw_file_bytes_large (g : bytes) (ckh ckf t attr state : Z) (body : bytes) : bytes :=
   g ++ [ckh; ckf; t; attr] ++ le_enc 3 16777215 ++ [state] ++ le_enc 8 (32 + zlen body) ++ body.
 
+(* a file rebuilt from its sections whose size reaches 16 MiB: the large form with both checksums
+   as the PI specification prescribes (the header checksum covers the 32-byte header) *)
+Definition file_bytes_large (g : bytes) (t attr state : Z) (body : bytes) : bytes :=
+  let size := 32 + zlen body in
+  let ckh := (0 - (sum_list g + t + attr + sum_list (le_enc 3 16777215) + sum_list (le_enc 8 size))) mod 256 in
+  let ckf := if attr_checksum attr then (0 - sum_list body) mod 256 else 170 in
+  raw_file_bytes_large g ckh ckf t attr state body.
+
 (* ---------- volumes ---------- *)
 
 (* files in a volume: each followed by erased bytes (0xFF) up to the next 8-byte boundary *)
